@@ -53,7 +53,7 @@ def check(ctx):
                 else:
                     ctx.holds('R1.once', '%s:%s' % (e['where'], kern.replace('hep::', '')),
                               'one unconditional accumulator.invoke per iteration of the per-call loop')
-                calls = sym('calls')
+                calls = sym(f.params[1].name)
                 if lp['lo'] == ZERO and lp['hi'] == calls:
                     ctx.holds('R1.bounds', '%s:%s' % (ls.node.where(), kern.replace('hep::', '')),
                               'per-call loop runs i = 0 .. calls with step 1')
@@ -127,7 +127,7 @@ def check(ctx):
                 return
             a = acc[0]
             want_pc = (T.cmp('!=', fv, ZERO), fin)
-            if tuple(a['pc']) != want_pc:
+            if norm_pc(a['pc']) != norm_pc(want_pc):
                 ctx.violation('R2.accumulate', where, 'accumulate() is not executed exactly for the '
                               'non-zero finite evaluations',
                               {'condition': T.pretty(T.conj(a['pc']))[:500],
@@ -308,7 +308,7 @@ def delta_plus(new, old):
 
 def r6_vegas(ctx, f, s, ls, inv_effect):
     where = '%s:vegas_iteration' % ls.node.where()
-    u = ls.updates.get('adjustment_data')
+    u = upd_by_final(ls, fld(s.ret, 'adjustment_data_'))
     if u is None:
         ctx.violation('R6.vegas', where, 'no adjustment data is accumulated in the per-call loop')
         return
@@ -332,7 +332,8 @@ def r6_vegas(ctx, f, s, ls, inv_effect):
     binj = None
     pt = inv_effect['args'][1]
     # the point's bin vector after construction
-    vb = s.loops[ls.id].updates.get('bin')
+    ptb = fld(inv_effect['args'][1], 'bin_')
+    vb = upd_by_loc(ls, ptb[1]) if isinstance(ptb, tuple) and ptb and ptb[0] == 'ref' else None
     if vb is None:
         raise AnalysisBroken('cannot find the bin vector written by the point')
     bin_after = T.subst(vb['next'], {})
@@ -343,7 +344,7 @@ def r6_vegas(ctx, f, s, ls, inv_effect):
 
 def r6_multi(ctx, f, s, ls, inv_effect):
     where = '%s:multi_channel_iteration' % ls.node.where()
-    u = ls.updates.get('adjustment_data')
+    u = upd_by_final(ls, fld(s.ret, 'adjustment_data_'))
     if u is None:
         ctx.violation('R6.multi', where, 'no adjustment data is accumulated in the per-call loop')
         return
